@@ -34,17 +34,19 @@ impl Rng {
     }
     pub fn u16(&mut self) -> u16 {
         const B: [u16; 12] = [0, 1, 0xff, 0x100, 0x555, 0xfff, 0x1000, 0x7fff, 0x8000, 0xfffe, 0xffff, 0x0800];
-        match self.below(3) {
-            0 => B[self.below(12) as usize],
-            1 => 1 << self.below(16),
+        match self.below(7) {
+            0 | 1 => B[self.below(12) as usize],
+            2 | 3 => 1 << self.below(16),
+            4 => self.below(16) as u16, // the values of the sixteen event codes: a field that looks like another kind's code
             _ => self.next() as u16,
         }
     }
     pub fn u32(&mut self) -> u32 {
-        match self.below(4) {
+        match self.below(5) {
             0 => 0,
             1 => u32::MAX,
             2 => 1 << self.below(32),
+            3 => (self.below(16) as u32) << (16 * self.below(2)), // an event code in the low or in the high half
             _ => self.next() as u32,
         }
     }
